@@ -70,6 +70,13 @@ def check_arc(case, ctx):
         region_in = [float(W), float(E), float(S), float(N)]
     lon_in = np.array(case["lon"], dtype="float64").reshape(case.get("lon_shape", [-1]))
     lat_in = np.array(case["lat"], dtype="float64").reshape(lon_in.shape)
+    if case.get("lattice") and not case.get("single"):
+        # the same arc again with each seam value / bound as the only longitude of the call (what happens to one
+        # longitude must not depend on which other longitudes share its array)
+        for probe in (-180.0, 0.0, 180.0, 360.0, float(W), float(E)):
+            check_arc(dict(case, lon=[probe], lat=[0.0], single=True), ctx)
+        for conv in ([v for v in case["lon"] if 0 <= v <= 360], [v for v in case["lon"] if -180 <= v <= 180]):
+            check_arc(dict(case, lon=conv, lat=[0.0] * len(conv), single=True), ctx)
     form = case.get("form", "both")
     region_only = vd.longitude_continuity(None, list(region_in))
     (lon, lat), region = vd.longitude_continuity([lon_in.copy(), lat_in.copy()], list(region_in))
@@ -174,6 +181,11 @@ def arc_cases(draw):
     N = draw(gen.finite(S, 90))
     n = draw(st.integers(1, 24))
     lons = draw(st.lists(st.one_of(lon_val, st.sampled_from([W, E])), min_size=n, max_size=n))
+    conv = draw(st.sampled_from(["mixed", "mixed", "only360", "only180"]))
+    if conv == "only360":
+        lons = [v if 0 <= v <= 360 else v + 360 for v in lons]
+    elif conv == "only180":
+        lons = [v if -180 <= v <= 180 else v - 360 for v in lons]
     lats = draw(st.lists(gen.finite(S, N), min_size=n, max_size=n))
     shape = [n]
     if n % 2 == 0 and draw(st.booleans()):
